@@ -239,8 +239,10 @@ func (its *jsonPrimitive) getTargetByPaths(from jsonType, paths []string) (jsonT
 func (its *jsonPrimitive) getTargetFromPatch(from jsonType, path string) (jsonType, string, errors.OrdaError) {
 	paths := strings.Split(path, "/")
 
-	if len(paths) < 1 {
-		return nil, "", errors.DatatypeInvalidPatch.New(its.common.L(), "incorrect path: %v", path)
+	// a JSON pointer that addresses a member or an element is "/token.../token": at least ["", token] after the split.
+	// "" addresses the whole document, which cannot be added, removed or replaced
+	if len(paths) < 2 {
+		return nil, "", errors.DatatypeInvalidPatch.New(its.common.L(), "incorrect path: '"+path+"'")
 	}
 	for i, s := range paths {
 		// decode the reference tokens of a JSON pointer (RFC 6901): "~1" is '/', and "~0" is '~'
